@@ -46,8 +46,11 @@ def run_one(case, acc, oracle_fns, nontrivial=None, sample=None, post=None):
     wit = {"case": case}
     for fn in oracle_fns:
         fn(tr, acc, wit)
-    if nontrivial is None or nontrivial(tr):
+    nt = True if nontrivial is None else nontrivial(tr)
+    if nt is True:
         acc.sig(oracles.sig_of_trace(tr))
+    elif nt:
+        acc.sig(nt)
     if sample is not None:
         acc.sample(sample(case, tr))
     else:
